@@ -1,6 +1,7 @@
 package main
 
 import (
+	"verif/harness/internal/c07"
 	"verif/harness/internal/c09"
 	"verif/harness/internal/c18"
 	"verif/harness/internal/c12"
@@ -12,6 +13,8 @@ import (
 )
 
 func init() {
+	checks["C07"] = c07.Run
+	workers["c07"] = c07.Worker
 	checks["C09"] = c09.Run
 	workers["c09"] = c09.Worker
 	checks["C18"] = c18.Run
